@@ -8,7 +8,9 @@ import (
 )
 
 func (core *JApiCore) collectRules() *jerr.JApiError {
-	return core.collectRulesFromDirectives(core.directives)
+	// After the PASTE directives have been processed: the enums brought in by
+	// a macro take the place of the PASTE, like everything else it brings in.
+	return core.collectRulesFromDirectives(core.directivesWithPastes)
 }
 
 func (core *JApiCore) collectRulesFromDirectives(dd []*directive.Directive) *jerr.JApiError {
